@@ -107,7 +107,13 @@ def main():
                 except Exception as e:
                     ev["twin"] = ["twin-raised", type(e).__name__]
                 try:
-                    ev["got"] = jsonable(getattr(mod, op["name"])(1))
+                    target = getattr(mod, op["name"])
+                    if op.get("how") == "clone":          # the same call through a modifier
+                        target = target.force_local()
+                    elif op.get("how") == "partial":
+                        target = target.partial()
+                    ev["how"] = op.get("how", "plain")
+                    ev["got"] = jsonable(target(1))
                 except Exception as e:
                     ev["got"] = ["raised", type(e).__name__]
                     ev["exc"] = type(e).__name__
